@@ -5,14 +5,30 @@ use std::time::Duration;
 #[derive(Debug)]
 pub struct AtomicDuration(AtomicUsize);
 
+// convert the duration to the milli seconds kept in the atomic, 0 is none.
+// round up to the next milli second and use at least 1ms, so that a timeout
+// never fires early and a zero or sub-millisecond timeout is not lost
+#[inline]
+fn to_millis(dur: Option<Duration>) -> usize {
+    match dur {
+        None => 0,
+        Some(d) => {
+            let mut ms = d.as_millis();
+            if d.subsec_nanos() % 1_000_000 != 0 || ms == 0 {
+                ms += 1;
+            }
+            if ms > usize::MAX as u128 {
+                usize::MAX
+            } else {
+                ms as usize
+            }
+        }
+    }
+}
+
 impl AtomicDuration {
     pub fn new(dur: Option<Duration>) -> Self {
-        let dur = match dur {
-            None => 0,
-            Some(d) => d.as_millis() as usize,
-        };
-
-        AtomicDuration(AtomicUsize::new(dur))
+        AtomicDuration(AtomicUsize::new(to_millis(dur)))
     }
 
     #[inline]
@@ -26,12 +42,7 @@ impl AtomicDuration {
 
     #[inline]
     pub fn store(&self, dur: Option<Duration>) {
-        let timeout = match dur {
-            None => 0,
-            Some(d) => d.as_millis() as usize,
-        };
-
-        self.0.store(timeout, Ordering::Relaxed);
+        self.0.store(to_millis(dur), Ordering::Relaxed);
     }
 
     #[inline]
